@@ -17,9 +17,9 @@ EXTENDS Integers, Sequences, FiniteSets, TLC, Json, IOUtils
 Rec == ndJsonDeserialize(IOEnv.TRACE)
 
 VARIABLES l, run, cfg, viol, hits, nruns, lastFresh, curEdge, maxRxEnd,
-          wrT, dl, closedAt, accPre, accInt, finAcc, advEdge, lastAckEm, synWs, maxEdge, zeroRecent, maxSent,
+          wrT, dl, closedAt, accPre, accInt, finAcc, advEdge, lastEdge, lastAckEm, synWs, maxEdge, zeroRecent, maxSent,
           peerMss, maxAckRcvd, twEntry, twLastRx, rstSeen, scripted
-conn == <<lastFresh, curEdge, maxRxEnd, wrT, dl, closedAt, accPre, accInt, finAcc, advEdge, lastAckEm, synWs, maxEdge, zeroRecent, maxSent,
+conn == <<lastFresh, curEdge, maxRxEnd, wrT, dl, closedAt, accPre, accInt, finAcc, advEdge, lastEdge, lastAckEm, synWs, maxEdge, zeroRecent, maxSent,
           peerMss, maxAckRcvd, twEntry, twLastRx, rstSeen, scripted>>
 vars == <<l, run, cfg, viol, hits, nruns, conn>>
 
@@ -52,7 +52,7 @@ Adv(pre, s) == IF s # <<>> /\ Head(s)[1] <= pre + 1 THEN Adv(Max(pre, Head(s)[2]
 InitConn ==
   /\ lastFresh = Fn(0) /\ curEdge = Fn(0) /\ maxRxEnd = Fn(0)
   /\ wrT = Fn(0) /\ dl = Fn(0) /\ closedAt = Fn(-1) /\ accPre = Fn(0) /\ accInt = Fn(<<>>) /\ finAcc = Fn(-1)
-  /\ advEdge = Fn(0) /\ lastAckEm = Fn(0) /\ synWs = Fn(-1) /\ maxEdge = Fn(0) /\ zeroRecent = Fn(0) /\ maxSent = Fn(0)
+  /\ advEdge = Fn(0) /\ lastEdge = Fn(0) /\ lastAckEm = Fn(0) /\ synWs = Fn(-1) /\ maxEdge = Fn(0) /\ zeroRecent = Fn(0) /\ maxSent = Fn(0)
   /\ peerMss = Fn(-1) /\ maxAckRcvd = Fn(0) /\ twEntry = Fn(-1) /\ twLastRx = Fn(-1) /\ rstSeen = FALSE /\ scripted = Fn(FALSE)
 Init == l = 1 /\ run = -1 /\ cfg = <<>> /\ viol = <<>> /\ hits = [r \in Rules |-> 0] /\ nruns = 0 /\ InitConn
 
@@ -108,9 +108,12 @@ OutsFold(e, outs, a, sw) ==
                 bothWs == ws2 >= 0 /\ sw[1 - e] >= 0
                 sh == IF o.syn \/ ~bothWs THEN 0 ELSE Min(ws2, 14)
                 edge == IF o.ha /\ ~o.rst THEN Max(a.edge, o.ack + o.win * Pow2(sh)) ELSE a.edge
+                \* the edge of the latest window advertisement (the one the socket tests arriving segments against; scaling
+                \* can round it below an earlier one)
+                le == IF o.ha /\ ~o.rst THEN o.ack + o.win * Pow2(sh) ELSE a.le
                 la == IF o.ha /\ ~o.rst THEN Max(a.la, o.ack) ELSE a.la
             \* (a reset takes its sequence number from the segment it answers: it says nothing about what has been sent)
-            IN OutsFold(e, Tail(outs), [edge |-> edge, la |-> la, ms |-> IF o.rst THEN a.ms ELSE Max(a.ms, o.seq + SegLen(o)), ws |-> ws2, rst |-> a.rst \/ o.rst], sw)
+            IN OutsFold(e, Tail(outs), [edge |-> edge, le |-> le, la |-> la, ms |-> IF o.rst THEN a.ms ELSE Max(a.ms, o.seq + SegLen(o)), ws |-> ws2, rst |-> a.rst \/ o.rst], sw)
 
 PostViol(e, p, now) ==
   IF (p.st \in NeedTimer \/ (p.sq > 0 /\ p.st \in DataStates)) /\ p.pa = -1 THEN << <<l, "L1", e, p.st, IF p.sq > 0 THEN "data" ELSE "ctl">> >> ELSE <<>>
@@ -154,7 +157,7 @@ Step ==
             /\ run' = r.run /\ cfg' = r.cfg /\ viol' = <<>> /\ nruns' = nruns + 1 /\ hits' = hits
             /\ lastFresh' = Fn(0) /\ curEdge' = Fn(0) /\ maxRxEnd' = Fn(0)
             /\ wrT' = Fn(0) /\ dl' = Fn(0) /\ closedAt' = Fn(-1) /\ accPre' = Fn(0) /\ accInt' = Fn(<<>>) /\ finAcc' = Fn(-1)
-            /\ advEdge' = Fn(0) /\ lastAckEm' = Fn(0) /\ synWs' = Fn(-1) /\ maxEdge' = Fn(0) /\ zeroRecent' = Fn(0) /\ maxSent' = Fn(0)
+            /\ advEdge' = Fn(0) /\ lastEdge' = Fn(0) /\ lastAckEm' = Fn(0) /\ synWs' = Fn(-1) /\ maxEdge' = Fn(0) /\ zeroRecent' = Fn(0) /\ maxSent' = Fn(0)
             /\ peerMss' = Fn(-1) /\ maxAckRcvd' = Fn(0) /\ twEntry' = Fn(-1) /\ twLastRx' = Fn(-1) /\ rstSeen' = FALSE
             /\ scripted' = [e \in EPS |-> "scripted" \in DOMAIN r.cfg[e + 1]]
        [] r.ev = "api" ->
@@ -168,12 +171,12 @@ Step ==
                    /\ wrT' = [wrT EXCEPT ![e] = @ + (IF r.ret > 0 THEN r.ret ELSE 0)]
                    /\ viol' = AddAll(viol, tv \o pv)
                    /\ hits' = [hits EXCEPT !["L1"] = @ + 1]
-                   /\ UNCHANGED <<dl, closedAt, accPre, accInt, finAcc, advEdge, lastAckEm, synWs, maxEdge, zeroRecent, maxSent, peerMss, maxAckRcvd, twEntry, twLastRx, rstSeen, scripted, lastFresh, curEdge, maxRxEnd>>
+                   /\ UNCHANGED <<dl, closedAt, accPre, accInt, finAcc, advEdge, lastEdge, lastAckEm, synWs, maxEdge, zeroRecent, maxSent, peerMss, maxAckRcvd, twEntry, twLastRx, rstSeen, scripted, lastFresh, curEdge, maxRxEnd>>
               [] r.call = "close" ->
                    /\ closedAt' = [closedAt EXCEPT ![e] = IF @ = -1 THEN r.at ELSE @]
                    /\ viol' = AddAll(viol, tv \o pv)
                    /\ hits' = [hits EXCEPT !["T1"] = @ + 1]
-                   /\ UNCHANGED <<wrT, dl, accPre, accInt, finAcc, advEdge, lastAckEm, synWs, maxEdge, zeroRecent, maxSent, peerMss, maxAckRcvd, twEntry, twLastRx, rstSeen, scripted, lastFresh, curEdge, maxRxEnd>>
+                   /\ UNCHANGED <<wrT, dl, accPre, accInt, finAcc, advEdge, lastEdge, lastAckEm, synWs, maxEdge, zeroRecent, maxSent, peerMss, maxAckRcvd, twEntry, twLastRx, rstSeen, scripted, lastFresh, curEdge, maxRxEnd>>
               [] r.call = "recv" ->
                    LET p == 1 - e
                        n == IF r.ret > 0 THEN r.ret ELSE 0
@@ -186,12 +189,12 @@ Step ==
                       /\ viol' = AddAll(viol, p1 \o p3 \o r2 \o p2 \o tv \o pv)
                       /\ hits' = [hits EXCEPT !["P1"] = @ + (IF n > 0 THEN 1 ELSE 0), !["R2"] = @ + (IF n > 0 THEN 1 ELSE 0),
                                               !["P3"] = @ + (IF n > 0 THEN 1 ELSE 0), !["P2"] = @ + (IF r.err = "finished" THEN 1 ELSE 0)]
-                      /\ UNCHANGED <<wrT, closedAt, accPre, accInt, finAcc, advEdge, lastAckEm, synWs, maxEdge, zeroRecent, maxSent, peerMss, maxAckRcvd, twEntry, twLastRx, rstSeen, scripted, lastFresh, curEdge, maxRxEnd>>
+                      /\ UNCHANGED <<wrT, closedAt, accPre, accInt, finAcc, advEdge, lastEdge, lastAckEm, synWs, maxEdge, zeroRecent, maxSent, peerMss, maxAckRcvd, twEntry, twLastRx, rstSeen, scripted, lastFresh, curEdge, maxRxEnd>>
               [] OTHER ->    \* listen, connect, abort
                    /\ viol' = AddAll(viol, tv \o pv)
                    /\ hits' = [hits EXCEPT !["T1"] = @ + 1]
                    /\ rstSeen' = (rstSeen \/ r.call = "abort")
-                   /\ UNCHANGED <<wrT, dl, closedAt, accPre, accInt, finAcc, advEdge, lastAckEm, synWs, maxEdge, zeroRecent, maxSent, peerMss, maxAckRcvd, twEntry, twLastRx, scripted, lastFresh, curEdge, maxRxEnd>>
+                   /\ UNCHANGED <<wrT, dl, closedAt, accPre, accInt, finAcc, advEdge, lastEdge, lastAckEm, synWs, maxEdge, zeroRecent, maxSent, peerMss, maxAckRcvd, twEntry, twLastRx, scripted, lastFresh, curEdge, maxRxEnd>>
        [] r.ev = "rx" ->
             LET e == r.ep
                 p == 1 - e
@@ -224,7 +227,7 @@ Step ==
                 shp == IF g.syn THEN 0 ELSE Shift(p)
                 learn == good /\ g.ha /\ ~g.rst
                 sw2 == [synWs EXCEPT ![p] = IF hsSyn THEN g.ws ELSE @]
-                f == OutsFold(e, r.out, [edge |-> advEdge[e], la |-> lastAckEm[e], ms |-> IF newConn THEN 0 ELSE maxSent[e], ws |-> synWs[e], rst |-> FALSE], sw2)
+                f == OutsFold(e, r.out, [edge |-> advEdge[e], le |-> lastEdge[e], la |-> lastAckEm[e], ms |-> IF newConn THEN 0 ELSE maxSent[e], ws |-> synWs[e], rst |-> FALSE], sw2)
                 me2 == IF learn THEN Max(maxEdge[e], g.ack + g.win * Pow2(shp)) ELSE maxEdge[e]
                 zr2 == IF learn /\ g.win = 0 THEN 8 ELSE IF learn THEN Max(zeroRecent[e] - 1, 0) ELSE zeroRecent[e]
                 mss2 == IF hsSyn THEN g.mss ELSE peerMss[e]
@@ -237,7 +240,7 @@ Step ==
                 \* (in LAST-ACK the code answers an ACK that acknowledges nothing new with a challenge ACK and takes nothing from it)
                 certain == learn /\ ~g.syn /\ ~g.fin /\ r.before \in DataStates \cup {"FIN-WAIT-2"} /\ r.before = r.post.st
                            /\ (r.before # "LAST-ACK" \/ g.ack > maxAckRcvd[e])
-                           /\ g.seq >= Max(maxRxEnd[e], 1) /\ g.seq < advEdge[e] /\ g.ack >= maxAckRcvd[e] /\ g.ack <= maxSent[e]
+                           /\ g.seq >= Max(maxRxEnd[e], 1) /\ g.seq < Min(advEdge[e], lastEdge[e]) /\ g.ack >= maxAckRcvd[e] /\ g.ack <= maxSent[e]
                 ce2 == IF newConn THEN 0 ELSE IF certain THEN newE ELSE IF learn /\ curEdge[e] > 0 THEN Max(curEdge[e], newE) ELSE curEdge[e]
                 meJ == IF ce2 > 0 THEN ce2 ELSE me2
                 ov == OutsViol(e, r.out, pre2, fin2, IF newConn THEN 0 ELSE maxSent[e], r.post.rq, sw2, [me |-> meJ, zr |-> zr2, mss |-> mss2, mar |-> mar2])
@@ -252,7 +255,7 @@ Step ==
             IN /\ accPre' = [accPre EXCEPT ![e] = pre2]
                /\ accInt' = [accInt EXCEPT ![e] = av.s]
                /\ finAcc' = [finAcc EXCEPT ![e] = fin2]
-               /\ advEdge' = [advEdge EXCEPT ![e] = f.edge]
+               /\ advEdge' = [advEdge EXCEPT ![e] = f.edge] /\ lastEdge' = [lastEdge EXCEPT ![e] = f.le]
                /\ lastAckEm' = [lastAckEm EXCEPT ![e] = f.la]
                /\ maxSent' = [maxSent EXCEPT ![e] = f.ms]
                /\ synWs' = [synWs EXCEPT ![e] = f.ws, ![p] = IF hsSyn THEN g.ws ELSE @]
@@ -277,7 +280,7 @@ Step ==
        [] r.ev \in {"egress", "probe"} ->
             LET e == r.ep
                 before == IF "before" \in DOMAIN r THEN r.before ELSE r.post.st
-                f == OutsFold(e, r.out, [edge |-> advEdge[e], la |-> lastAckEm[e], ms |-> maxSent[e], ws |-> synWs[e], rst |-> FALSE], synWs)
+                f == OutsFold(e, r.out, [edge |-> advEdge[e], le |-> lastEdge[e], la |-> lastAckEm[e], ms |-> maxSent[e], ws |-> synWs[e], rst |-> FALSE], synWs)
                 ov == OutsViol(e, r.out, accPre[e], finAcc[e], maxSent[e], r.post.rq, synWs, [me |-> IF curEdge[e] > 0 THEN curEdge[e] ELSE maxEdge[e], zr |-> zeroRecent[e], mss |-> peerMss[e], mar |-> maxAckRcvd[e]])
                 tv == IF EdgeOK(e, before, r.post.st, "egress", [x |-> 0], "", FALSE, FALSE, FALSE, r.now) THEN <<>>
                       ELSE << <<l, "T1", e, before, r.post.st, "egress">> >>
@@ -289,7 +292,7 @@ Step ==
                       THEN << <<l, "T2", e, "late", r.now - twLastRx[e]>> >> ELSE <<>>
                 q1 == IF r.ev = "probe" /\ r.out # <<>> THEN << <<l, "Q1", e, r.now, r.deadline>> >> ELSE <<>>
                 q2 == IF r.out = <<>> /\ before = r.post.st /\ r.post.pa # -1 /\ r.post.pa <= r.now THEN << <<l, "Q2", e, r.now, r.post.pa, r.post.st>> >> ELSE <<>>
-            IN /\ advEdge' = [advEdge EXCEPT ![e] = f.edge]
+            IN /\ advEdge' = [advEdge EXCEPT ![e] = f.edge] /\ lastEdge' = [lastEdge EXCEPT ![e] = f.le]
                /\ lastAckEm' = [lastAckEm EXCEPT ![e] = f.la]
                /\ maxSent' = [maxSent EXCEPT ![e] = f.ms]
                /\ synWs' = [synWs EXCEPT ![e] = f.ws]
